@@ -10,15 +10,21 @@ package keyvalue
 // writes its single key directly.
 //
 // sigKeyStr(i, n): the key of signature slot i of a channel with n participants. sigKeys and sigKey format it with fmt.Sprintf
-// (zero padded to the width of n): string formatting is outside the verified subset, both are trusted to produce this key.
+// (zero padded to the width of n). String formatting is outside the verified subset, so that the result is this key stays a trusted
+// postcondition; what is verified is that both functions hand Sprintf the same padding width - the expression
+// int(math.Ceil(math.Log10(float64(numParts)))), as an uninterpreted term (log10width) - and the slot index, so that the key under
+// which SigAdded writes a slot is the key under which Staged, Enabled, ChannelCreated and ChannelRemoved rewrite and delete it.
 //@ ghost func sigKeyStr(i int, n int) string
 //@ func sigKeys
-//@   trusted
-//@   requires numParts >= 0
-//@   ensures len(result) == numParts && fresh(arr(result)) && off(result) == 0 && forall i int :: 0 <= i && i < numParts ==> result[i] == sigKeyStr(i, numParts)
+//@   requires numParts >= 0 && numParts <= 68719476736
+//@   callsite Sprintf : len(a) == 2 && typeof(a[0]) == typetag("int") && as(a[0], "int") == log10width(numParts) && typeof(a[1]) == typetag("int") && as(a[1], "int") == i
+//@   trustedensures len(result) == numParts && fresh(arr(result)) && off(result) == 0 && forall i int :: 0 <= i && i < numParts ==> result[i] == sigKeyStr(i, numParts)
+//@   loop 1
+//@     modifies fresh
+//@     invariant len(keys) == numParts && width == log10width(numParts)
 //@ func sigKey
-//@   trusted
-//@   ensures result == sigKeyStr(idx, numParts)
+//@   callsite Sprintf : len(a) == 3 && typeof(a[1]) == typetag("int") && as(a[1], "int") == log10width(numParts) && typeof(a[2]) == typetag("int") && as(a[2], "int") == idx
+//@   trustedensures result == sigKeyStr(idx, numParts)
 
 // dbPutSource writes the named fields of the source into the writer (encoders abstracted).
 //@ func dbPutSource
